@@ -641,6 +641,13 @@ class GraphParser:
         if '' in lefts or left and not all(lefts):
             raise GraphParseError(
                 f"Null task name in graph: {left} => {right}")
+        if left and '' in self.__class__._RE_ANDOR.split(
+            left.replace('(', '').replace(')', '')
+        ):
+            # Null operand in a conditional or parenthesised expression,
+            # e.g. "a | => b", "(a | ) & b => c".
+            raise GraphParseError(
+                f"Null task name in graph: {left} => {right}")
 
         _rights.update(*([rights] or []))
 
